@@ -22,9 +22,11 @@ package blob
 //@   ensures result.1 == nil ==> this.ghost_len == old(this.ghost_len) + len(p)
 //@   ensures result.1 == nil ==> this.ghost_stream == sapp(old(this.ghost_stream), p, len(p))
 
+// Sum appends to b: in place when b has room (h.Sum(d.sum[:0]) fills d.sum), else a fresh slice
 //@ extern func hash.(Hash).Sum
-//@   modifies nothing
+//@   modifies b[all]
 //@   ensures len(result) == len(b) + 32
+//@   ensures cap(b) >= len(b) + 32 ==> &result[0] == &b[0]
 //@   ensures forall k int :: 0 <= k && k < 32 ==> result[len(b) + k] == shabyte(this.ghost_stream, k)
 
 //@ extern func bytes.Equal
@@ -38,11 +40,17 @@ package blob
 //@   ensures this.ghost_len == old(this.ghost_len) + result.0
 //@   ensures this.ghost_stream == sapp(old(this.ghost_stream), p, result.0)
 
+//@ extern func strings.IndexAny
+//@   pure
+//@   ensures -1 <= result && result < len(s)
 //@ extern func fmt.Errorf
 //@   modifies nothing
 //@   ensures result != nil
 
 // ---- the hash-gated writer ---------------------------------------------------------------
+// Assumptions of this section (props/C08.json): the test hook is nil (it is only set by
+// tests); sizes and chunk lengths are below 2^62 (no wrap-around of w.n + len(p)); the
+// underlying writer obeys the io.Writer contract (0 <= n <= len(p), n < len(p) ==> err != nil).
 
 //@ func (*checkWriter).seterr
 //@   modifies w.err
@@ -54,8 +62,8 @@ package blob
 //@   requires w.testHookBeforeFinalWrite == nil
 //@   requires w.size < (1 << 62) && len(p) < (1 << 62)
 // the hash and the sink are different objects (a hash.Hash is an io.Writer too; ghost fields
-// are per object)
-//@   requires w.w != w.h
+// are per object). ghost_ishash is a role tag: 1 on objects made by sha256.New, 0 on files.
+//@   requires w.h.ghost_ishash == 1 && w.w.ghost_ishash == 0
 // object invariant (I):
 //@   requires w.err == nil ==> w.w.ghost_len == w.n && w.h.ghost_len == w.n && w.w.ghost_stream == w.h.ghost_stream && 0 <= w.n && w.n <= w.size
 //@   ensures  w.err == nil ==> w.w.ghost_len == w.n && w.h.ghost_len == w.n && w.w.ghost_stream == w.h.ghost_stream && 0 <= w.n && w.n <= w.size
@@ -100,7 +108,7 @@ package blob
 //@   modifies nothing
 //@   ensures result.1 == nil ==> result.0 != nil && fresh(result.0)
 // a just opened file has accepted no byte through this handle
-//@   ensures result.1 == nil ==> result.0.ghost_len == 0 && result.0.ghost_stream == 0
+//@   ensures result.1 == nil ==> result.0.ghost_len == 0 && result.0.ghost_stream == 0 && result.0.ghost_ishash == 0
 //@ extern func os.(*File).Close
 //@   modifies nothing
 //@ extern func os.(*File).Truncate
@@ -111,7 +119,7 @@ package blob
 //@   modifies nothing
 //@ extern func crypto/sha256.New
 //@   modifies nothing
-//@   ensures result != nil && result.ghost_len == 0 && result.ghost_stream == 0 && !tagis(result, "*os.File")
+//@   ensures result != nil && result.ghost_len == 0 && result.ghost_stream == 0 && result.ghost_ishash == 1
 //@ extern func io.Copy
 //@   modifies boxed(dst)
 //@   ensures result.0 >= 0
@@ -140,12 +148,14 @@ package blob
 //@   ghost-at after call Truncate #1 : ghost_cleaned := 1
 //@   ghost-at after call Truncate #2 : ghost_cleaned := 1
 //@   ghost-at after call os.Remove #1 : ghost_cleaned := 1
-// Engine gap (listed assumption): cw.w was assigned f two lines above; the engine keeps the
-// ghost fields of the pointer f and of the interface value that boxes it (after it went
-// through the field cw.w) in different places. They are the same object.
-//@   assume-at call io.Copy #1 : cw.w.ghost_len == f.ghost_len && cw.w.ghost_stream == f.ghost_stream
+// Listed assumption: the sink cw.w is the file f opened above; through this handle it has
+// accepted no byte yet, and it is not a hash object. (This is what the contract of os.OpenFile
+// says about its result; it is repeated here for cw.w because the engine identifies the ghost
+// fields of a pointer and of the interface value boxing it only when the pointer's element
+// index is known to be 0, which it is not for a pointer returned by an extern function.)
+//@   assume-at call io.Copy #1 : cw.w.ghost_len == 0 && cw.w.ghost_stream == 0 && cw.w.ghost_ishash == 0
 // the writer handed to io.Copy satisfies the preconditions of (*checkWriter).Write
-//@   assert-at call io.Copy #1 : cw.err == nil && cw.n == 0 && cw.size == size && size > 0 && cw.d == out && cw.testHookBeforeFinalWrite == nil && cw.w != cw.h
+//@   assert-at call io.Copy #1 : cw.err == nil && cw.n == 0 && cw.size == size && size > 0 && cw.d == out && cw.testHookBeforeFinalWrite == nil && cw.h.ghost_ishash == 1 && cw.w.ghost_ishash == 0
 //@   assert-at call io.Copy #1 : cw.w.ghost_len == 0 && cw.h.ghost_len == 0 && cw.w.ghost_stream == cw.h.ghost_stream
 // every return once the copy was started: nil after a complete, error-free copy and close,
 // or an error after Truncate(0) / Remove(name)
@@ -156,7 +166,7 @@ package blob
 //@   assert-at return #5 : ghost_cleaned == 1
 //@   assert-at return #6 : ghost_cleaned == 1
 //@   assert-at return #7 : ghost_wrote == 1 && n == size
-//@   assert-at call Close #2 : n == size && err == nil
+//@   assert-at call Close! #1 : n == size && err == nil
 // Glue (listed assumption): io.Copy(cw, file) only calls cw.Write, one call after the other,
 // stops at the first error and returns the sum of the counts and that error. Every clause
 // below is a postcondition of (*checkWriter).Write that is also one of its preconditions
@@ -171,7 +181,158 @@ package blob
 // (cw.w is the sink, i.e. the file f: `w: f` in the literal, never reassigned)
 // (stated where the success path begins, before the final Close: the call of c.now() on the way
 // to `return nil` is a call through a function value, after which the engine knows nothing)
-//@   assert-at call Close #2 : cw.w.ghost_len == size && (forall k int :: 0 <= k && k < 32 ==> out.sum[k] == shabyte(cw.w.ghost_stream, k))
+//@   assert-at call Close! #1 : cw.w.ghost_len == size && (forall k int :: 0 <= k && k < 32 ==> out.sum[k] == shabyte(cw.w.ghost_stream, k))
 //@   assert-at return #4 : cw.w.ghost_len <= size && (cw.w.ghost_len == size ==> (forall k int :: 0 <= k && k < 32 ==> out.sum[k] == shabyte(cw.w.ghost_stream, k)))
 //@   assert-at return #5 : cw.w.ghost_len < size
 //@   assert-at return #6 : cw.w.ghost_len == size && (forall k int :: 0 <= k && k < 32 ==> out.sum[k] == shabyte(cw.w.ghost_stream, k))
+// "A successful store makes the blob retrievable": Get reports a file of size 0 as absent, so
+// a nil return must mean a file of at least one byte. (FAILS for size == 0, see props/C08.json.)
+//@   ensures result == nil ==> size > 0
+
+// ---- Put / Link / Get / Resolve / Import / Unlink -----------------------------------------------
+
+//@ extern func (*DiskCache).manifestPath
+//@   modifies nothing
+//@ extern func os.MkdirAll
+//@   modifies nothing
+//@ extern func os.(*File).Stat
+//@   modifies nothing
+//@   ensures result.1 == nil ==> result.0 != nil
+//@ extern func os.Open
+//@   modifies nothing
+//@   ensures result.1 == nil ==> result.0 != nil && fresh(result.0)
+//@ extern func os.CreateTemp
+//@   modifies nothing
+//@   ensures result.1 == nil ==> result.0 != nil && fresh(result.0)
+//@ extern func os.(*File).Name
+//@   pure reads none
+//@ extern func os.Rename
+//@   modifies nothing
+//@ extern func io.ReadAll
+//@   modifies nothing
+//@   ensures result.0 == nil || fresh(result.0)
+//@ extern func PutBytes
+//@   requires c.testHookBeforeFinalWrite == nil
+//@   modifies nothing
+//@ extern func splitNameDigest
+//@   pure reads none
+
+// The blob is stored under the file name derived from the digest that gates the writer.
+//@ func (*DiskCache).Put
+//@   requires c.testHookBeforeFinalWrite == nil
+//@   requires 0 <= size && size < (1 << 62)
+//@   assert-at call copyNamedFile #1 : arg0 == c && arg1 == c.GetFile(d) && arg2 == r && arg3 == d && arg4 == size
+
+// Link: the blob is opened read-only under its digest's file name (never created), the
+// manifest copy is reached only after that open succeeded, and is gated by the same digest
+// and the size the open blob has.
+//@ func (*DiskCache).Link
+//@   requires c.testHookBeforeFinalWrite == nil
+//@   ghost-at entry : ghost_blobopen := 0
+//@   assert-at call os.OpenFile #1 : arg0 == c.GetFile(d) && arg1 == 0
+//@   ghost-at after call os.OpenFile #1 : ghost_blobopen := ite(result.1 == nil, 1, 0)
+//@   assert-at call copyNamedFile #1 : ghost_blobopen == 1 && arg0 == c && arg1 == manifest && arg3 == d && arg4 == info.Size()
+// "a name is linked only to a manifest blob that exists": Get treats a file of size 0 as absent
+//@   assert-at call copyNamedFile #1 : info.Size() > 0
+// "resolving a name returns the digest of exactly the bytes linked": Resolve reads at most 1 MiB
+//@   assert-at call copyNamedFile #1 : info.Size() <= (1 << 20)
+
+// Get: present means a file of non-zero size under the digest's name; the size reported is the file's.
+//@ func (*DiskCache).Get
+//@   modifies nothing
+//@   assert-at call os.Stat #1 : arg0 == c.GetFile(d)
+//@   assert-at return #3 : err == nil && info.Size() > 0
+//@   assert-at return #1 : err != nil
+//@   ensures result.0.Size >= 0 && (result.0.Size > 0 ==> result.0.Digest == d && result.1 == nil)
+
+// readAndSum: the digest returned is SHA-256 of the bytes returned.
+// TeeReader (listed assumption): what ReadAll got out of LimitReader(TeeReader(f, h)) is what h was fed.
+//@ func readAndSum
+//@   assume-at after call io.ReadAll #1 : result.1 == nil ==> h.ghost_stream == sapp(0, result.0, len(result.0))
+//@   assert-at call io.TeeReader #1 : arg1 == h
+//@   assert-at return #3 : forall k int :: 0 <= k && k < 32 ==> d.sum[k] == shabyte(h.ghost_stream, k)
+//@   ensures result.2 == nil ==> (forall k int :: 0 <= k && k < 32 ==> result.1.sum[k] == shabyte(sapp(0, result.0, len(result.0)), k))
+//@   ensures result.2 != nil ==> result.0 == nil
+
+// Resolve: the digest returned is the one readAndSum computed from the bytes it read, and
+// exactly these bytes are stored under it.
+//@ func (*DiskCache).Resolve
+//@   requires c.testHookBeforeFinalWrite == nil
+//@   assert-at call readAndSum #1 : arg0 == file
+//@   assert-at call PutBytes #1 : arg0 == c && arg1 == d && arg2 == data
+//@   assert-at return #5 : forall k int :: 0 <= k && k < 32 ==> d.sum[k] == shabyte(sapp(0, data, len(data)), k)
+
+// Import: the temp file is renamed to the name of the digest that was computed while it was
+// written, only after the byte count matched and the file was closed without error.
+//@ func (*DiskCache).Import
+//@   ghost-at entry : ghost_closed := 0
+//@   ghost-at after call Close! #1 : ghost_closed := ite(result == nil, 1, 0)
+//@   assert-at call os.Rename #1 : n == size && ghost_closed == 1 && arg0 == f.Name() && arg1 == c.GetFile(d)
+//@   assert-at call io.TeeReader #1 : arg1 == h
+//@   assert-at call hash.(Hash).Sum #1 : recv == h
+// TeeReader (listed assumption): every byte io.Copy wrote to f was first written to h.
+//@   assume-at after call io.Copy #1 : result.1 == nil ==> f.ghost_stream == h.ghost_stream && f.ghost_len == result.0
+// at the rename the temp file holds size bytes whose SHA-256 is the digest that names the target
+//@   assert-at call os.Rename #1 : f.ghost_len == size && (forall k int :: 0 <= k && k < 32 ==> d.sum[k] == shabyte(f.ghost_stream, k))
+
+// Unlink: removes exactly the manifest path of the name.
+//@ func (*DiskCache).Unlink
+//@   modifies nothing
+//@   assert-at call os.Remove #1 : arg0 == manifest
+//@   ensures result.1 != nil ==> result.0 == false
+
+// ---- digest.go / chunked.go ---------------------------------------------------------------------
+
+//@ func (Chunk).Size
+//@   pure reads none
+//@   requires 0 <= c.Start && c.Start <= c.End + 1 && c.End < (1 << 62)
+//@   ensures result == c.End - c.Start + 1 && result >= 0
+
+//@ extern func encoding/hex.Decode
+//@   modifies dst[all]
+//@   ensures result.1 == nil ==> result.0 * 2 == len(src)
+
+// ParseDigest: an error comes with the zero digest; success needs "sha256", ':' or '-', 64 characters.
+//@ func ParseDigest
+//@   assert-at return #1 : forall k int :: 0 <= k && k < 32 ==> zero.sum[k] == 0
+//@   assert-at return #2 : forall k int :: 0 <= k && k < 32 ==> zero.sum[k] == 0
+//@   assert-at return #3 : forall k int :: 0 <= k && k < 32 ==> zero.sum[k] == 0
+//@   assert-at return #4 : len(sum) == 64 && prefix == "sha256" && 0 <= i && prefix == s[:i] && sum == s[i+1:]
+
+//@ extern func server/internal/internal/names.Parse
+//@   pure reads none
+//@ extern func server/internal/internal/names.(Name).IsFullyQualified
+//@   pure reads none
+//@ extern func server/internal/internal/names.(Name).Host
+//@   pure reads none
+//@ extern func server/internal/internal/names.(Name).Namespace
+//@   pure reads none
+//@ extern func server/internal/internal/names.(Name).Model
+//@   pure reads none
+//@ extern func server/internal/internal/names.(Name).Tag
+//@   pure reads none
+// nameToPath: only fully qualified names have a path.
+//@ func nameToPath
+//@   modifies nothing
+//@   assert-at return #1 : n.IsFullyQualified()     -- (ordinal = engine traversal order: the return at line 535)
+//@   ensures !names.Parse(name).IsFullyQualified() ==> result.0 == ""
+
+// Chunker.Put: the chunk is written through a checkWriter gated by the chunk's digest and
+// the chunk's size, at the chunk's offset, and at most that many bytes are copied.
+//@ extern func io.NewOffsetWriter
+//@   modifies nothing
+//@   ensures result != nil && fresh(result) && result.ghost_len == 0 && result.ghost_stream == 0 && result.ghost_ishash == 0 && result.ghost_base == off
+//@ func (*Chunker).Put
+//@   requires 0 <= chunk.Start && chunk.Start <= chunk.End + 1 && chunk.End < (1 << 62)
+//@   assert-at call io.NewOffsetWriter #1 : arg1 == chunk.Start
+//@   assume-at call io.CopyN #1 : cw.w.ghost_len == 0 && cw.w.ghost_stream == 0 && cw.w.ghost_ishash == 0      -- cw.w is the OffsetWriter just made (same engine gap as in copyNamedFile)
+//@   assert-at call io.CopyN #1 : cw.err == nil && cw.n == 0
+//@   assert-at call io.CopyN #1 : cw.size == chunk.End - chunk.Start + 1
+//@   assert-at call io.CopyN #1 : cw.d == d && cw.testHookBeforeFinalWrite == nil
+//@   assert-at call io.CopyN #1 : cw.h.ghost_ishash == 1 && cw.w.ghost_ishash == 0
+//@   assert-at call io.CopyN #1 : arg2 == cw.size
+//@   assert-at call io.CopyN #1 : cw.w.ghost_len == 0 && cw.h.ghost_len == 0 && cw.w.ghost_stream == cw.h.ghost_stream && cw.f == c.f
+// blobs/sha256-X has no completeness marker but its length: the write that extends the file to
+// the full blob size c.size must not happen while other parts are unverified. The Chunker
+// keeps no record of verified ranges, so only a chunk covering the whole blob is safe.
+//@   assert-at call io.CopyN #1 : chunk.End + 1 < c.size || chunk.Start == 0 || chunk.End < chunk.Start
